@@ -570,6 +570,36 @@ class CallMixin(object):
             return self.mk_ite(
                 st, x.args[0], self.conv_float(st, x.args[1], node, module), self.conv_float(st, x.args[2], node, module)
             )
+        if isinstance(x, Fin) and is_discrete(x) and all(isinstance(v_, str) for v_ in x.table.values()):
+            # a table of strings: float() row by row (the builtin's own grammar), ValueError where it fails
+            fo = st.folder()
+            r0 = fo.restrict(x)
+            if isinstance(r0, Const):
+                return self.conv_float(st, r0, node, module)
+
+            def conv(s_):
+                try:
+                    f_ = float(s_)
+                except ValueError:
+                    return ERR
+                if f_ != f_:
+                    return NAN
+                if f_ in (float("inf"), float("-inf")):
+                    return Flt(Fraction(10) ** 400 * (1 if f_ > 0 else -1))
+                try:
+                    return Flt(Fraction(s_.strip().replace("_", "")))
+                except (ValueError, ZeroDivisionError):
+                    return Flt(Fraction(f_))
+
+            r = fo.fold(conv, [r0])
+            errs = fo.fold(lambda s_: conv(s_) is ERR, [r0])
+            if not (isinstance(errs, Const) and not errs.v):
+                self.hazard(st, "ValueError", node, module, errs, "float() of a non-numeric string")
+                if isinstance(errs, Const):
+                    raise Dead()
+                self.assume(st, mk_not(errs))
+                r = st.folder().restrict(r) if isinstance(r, Fin) else r
+            return r
         if isinstance(x, (Opaque,)) or strish(x):
             self.event("may_raise", node, module, st, exc="ValueError")
             return P.atom(App("float", (x,)), "flt")
@@ -858,6 +888,22 @@ class CallMixin(object):
             for g, v in items:
                 elems.append(App("item", (g, v if isinstance(v, Term) else Opaque("obj"))))
             return App("join", (recv,) + tuple(elems))
+        if name in ("index", "rindex") and is_discrete(recv) and strish(recv) and args and all(is_discrete(a) for a in args) and not kwargs and fo.can_fold([recv] + args):
+            def ix(s_, *xs):
+                try:
+                    return getattr(s_, name)(*xs)
+                except (ValueError, TypeError):
+                    return ERR
+
+            r = fo.fold(ix, [recv] + args)
+            errs = fo.fold(lambda s_, *xs: ix(s_, *xs) is ERR, [recv] + args)
+            if not (isinstance(errs, Const) and not errs.v):
+                self.hazard(st, "ValueError", node, module, errs, "str.%s(): substring not found" % name)
+                if isinstance(errs, Const):
+                    raise Dead()
+                self.assume(st, mk_not(errs))
+                r = st.folder().restrict(r) if isinstance(r, Fin) else r
+            return r
         if is_discrete(recv) and all(is_discrete(a) for a in args) and not kwargs and fo.can_fold([recv] + args):
             def meth(s, *xs):
                 r = pure_method(s, name, list(xs))
@@ -870,6 +916,12 @@ class CallMixin(object):
         return Opaque("strmeth:" + name, deps_of(recv))
 
     def map_method(self, st, ref, o, name, args, kwargs, node, module):
+        if name == "__contains__" and len(args) == 1:
+            return self.contains(st, ref, args[0], node, module)
+        if name == "__getitem__" and len(args) == 1:
+            return self.subscript(st, ref, args[0], node, module)
+        if name == "__len__" and not args:
+            return self.call_builtin(st, "len", [ref], {}, node, module)
         if name == "get":
             d = args[1] if len(args) > 1 else Const(None)
             return self.map_get(st, o, args[0], node, module, False, d)
@@ -985,6 +1037,12 @@ class CallMixin(object):
         return [items[i] for i in order]
 
     def list_method(self, st, ref, o, name, args, kwargs, node, module):
+        if name == "__contains__" and len(args) == 1:
+            return self.contains(st, ref, args[0], node, module)
+        if name == "__getitem__" and len(args) == 1:
+            return self.subscript(st, ref, args[0], node, module)
+        if name == "__len__" and not args:
+            return self.call_builtin(st, "len", [ref], {}, node, module)
         if name == "sort" and not args:
             o.items[:] = self.sort_items(st, list(o.items), kwargs, node, module)
             self.event("list_store", node, module, st, list=ref.id)
